@@ -27,6 +27,8 @@ func (d *drillmasterActor) OnReceive(ctx vivid.ActorContext) {
 	switch m := ctx.Message().(type) {
 	case *cm.ActorOf:
 		d.onActorOf(ctx, m)
+	case *vivid.OnTerminated:
+		d.onTerminated(m)
 	}
 }
 
@@ -47,7 +49,19 @@ func (d *drillmasterActor) onActorOf(ctx vivid.ActorContext, m *cm.ActorOf) {
 				descriptor.WithNamePrefix(m.Identity).WithName(m.Ability)
 			}))...,
 		)
+		d.members[m.Ability][m.Identity] = ref
 	}
 
 	ctx.Reply(ref)
+}
+
+// onTerminated 当由该管理者创建的 Actor 终止时，将其从成员列表中移除，下一次请求将重新创建
+func (d *drillmasterActor) onTerminated(m *vivid.OnTerminated) {
+	for _, identities := range d.members {
+		for identity, ref := range identities {
+			if ref.Equal(m.TerminatedActor) {
+				delete(identities, identity)
+			}
+		}
+	}
 }
